@@ -2,6 +2,7 @@ import GomlVerif.Driver.C05
 import GomlVerif.Driver.C10
 import GomlVerif.Driver.C15
 import GomlVerif.Driver.SemRun
+import GomlVerif.Driver.C11
 
 def main (args : List String) : IO UInt32 := do
   match args with
@@ -9,4 +10,5 @@ def main (args : List String) : IO UInt32 := do
   | ["c10"] => Goml.Driver.C10.main; return 0
   | ["c15"] => Goml.Driver.C15.main; return 0
   | ["sem"] => Goml.Driver.SemRun.main; return 0
+  | ["c11"] => Goml.Driver.C11.main; return 0
   | _ => IO.eprintln "usage: gomlmodel <c05|…> < lines"; return 2
